@@ -99,6 +99,19 @@ def gen_scenario(rng, k):
         v2 = rng.choice(['1.0', '1.1', '1.3'])
         ops.append({'k': 'add', 'res': docs.resource([g.lexicon('c', '1', v2)], v2)})
     ops.append({'k': 'obs'})
+    if rng.random() < 0.3:
+        # a resource handed over in memory, one of its lexicons removed, the very same object handed over again:
+        # what is reported is again exactly the document (a lexicon-level frame that lists a sense itself and is
+        # referred to by another sense's subcat is where a shared list would show)
+        vf = '1.3'
+        f1 = g.lexicon('f', '1', vf, n_syn=2, n_ent=rng.randint(2, 3))
+        sn = [s_ for e in f1['entries'] for s_ in e.get('senses', [])]
+        if len(sn) >= 2:
+            f1.setdefault('frames', []).append({'id': 'f-sbx', 'subcategorizationFrame': 'frame with senses attribute', 'senses': [sn[0]['id']]})
+            sn[1].setdefault('subcat', []).append('f-sbx')
+        f2 = g.lexicon('h', '1', vf, n_syn=1, n_ent=1)
+        both = {'k': 'add', 'res': docs.resource([f1, f2], vf), '_mem': True, '_mem_id': 'm1'}
+        ops += [dict(both), {'k': 'obs'}, {'k': 'remove', 'spec': 'f:1', '_removed': ['f:1']}, {'k': 'obs'}, dict(both), {'k': 'obs'}]
     return {'ops': ops, 'batch': rng.choice([None, 1, 2, 3, 7])}
 
 
@@ -140,6 +153,8 @@ def installed_docs(scenario, outs):
                 if lx.get('extends') and f"{lx['extends']['id']}:{lx['extends']['version']}" not in before:
                     continue
                 inst.append((spec, lx))
+        elif op['k'] == 'remove' and isinstance(out, dict) and out.get('ok'):
+            inst = [(s_, l_) for s_, l_ in inst if s_ not in op.get('_removed', [])]
     return inst
 
 
